@@ -43,6 +43,8 @@ func (prop) Describe() runner.Description {
 
 type state struct {
 	w       *xrworld.W
+	wl      *xrworld.Workload
+	pw      int
 	fn      *simfn.Transport
 	claims  []*xrworld.ClaimSpec
 	filter  []string
@@ -59,12 +61,18 @@ func (prop) Run(t *testing.T, s *sim.Sim, res *runner.Result) {
 			return xrworld.Opts{Claims: true, SSAClaims: tp.Next(2) == 1, ConnKeys: st.filter}
 		},
 		NoXRs:    true,
-		Params:   xrworld.DrawParams{ForcePipeline: true, Conn: true},
+		Params:   xrworld.DrawParams{Conn: true, PTConn: true},
 		Faults:   []sim.Outcome{sim.ErrBefore, sim.ErrAfter, sim.Conflict, sim.CrashBefore, sim.CrashAfter},
 		MaxChaos: 240,
 		Started: func(w *xrworld.W, wl *xrworld.Workload) {
 			st.w = w
+			st.wl = wl
 			st.fn = w.Fn
+			if wl.Pipeline {
+				res.Counters["mode-pipeline"]++
+			} else {
+				res.Counters["mode-resources"]++
+			}
 			w.OnFnTransport = func(tr *simfn.Transport) { st.fn = tr }
 			st.claims = xrworld.DrawClaims(s.Tape, wl, xrworld.DrawParams{Conn: true}, 2)
 			ctx := context.Background()
@@ -99,6 +107,11 @@ func (prop) Run(t *testing.T, s *sim.Sim, res *runner.Result) {
 					st.judgeExactCopy(key, tk, startSeq)
 				}
 			}
+			w.OnXRDone = func(key types.NamespacedName, tk *sim.Task, startSeq int, _ reconcile.Result, err error) {
+				if err == nil && tk.Normal && len(tk.FaultSteps) == 0 && !wl.Pipeline {
+					st.judgePTComplete(key, tk, startSeq)
+				}
+			}
 			res.Counters[fmt.Sprintf("xrd-filter-%d-keys", len(st.filter))]++
 		},
 		Env: func(w *xrworld.W, wl *xrworld.Workload) []sim.Action {
@@ -106,6 +119,59 @@ func (prop) Run(t *testing.T, s *sim.Sim, res *runner.Result) {
 			for _, c := range st.claims {
 				c := c
 				acts = append(acts, sim.Action{Key: "edit claim " + c.Name, Weight: 3, Run: func() { w.EditClaim(wl, c, xrworld.DrawParams{}, s.Tape) }})
+			}
+			// a provider publishes (or rotates, or loses) the connection secret of a
+			// composed resource; a secret of the same name in another namespace is
+			// somebody else's
+			for _, c := range w.ComposedObjects() {
+				sns, _, _ := unstructured.NestedString(c.Obj.Object, "spec", "writeConnectionSecretToRef", "namespace")
+				sn, _, _ := unstructured.NestedString(c.Obj.Object, "spec", "writeConnectionSecretToRef", "name")
+				if sn == "" {
+					continue
+				}
+				acts = append(acts, sim.Action{Key: "a provider publishes the connection secret " + sn, Weight: 3, Run: func() {
+					ctx := context.Background()
+					st.pw++
+					k := simapi.ObjKey{Kind: "Secret", NS: sns, Name: sn}
+					d := map[string]string{"password": base64.StdEncoding.EncodeToString([]byte(fmt.Sprintf("pw-%s-%d", sn, st.pw)))}
+					if s.Tape.Next(4) == 0 {
+						d["endpoint"] = base64.StdEncoding.EncodeToString([]byte("ep-" + sn))
+					}
+					switch m := w.Store.Peek(k); {
+					case m == nil:
+						if w.Direct.Create(ctx, secret(sns, sn, "connection.crossplane.io/v1alpha1", nil, d)) == nil {
+							w.S.Probe("composed-connection-secret-published")
+						}
+						if s.Tape.Next(3) == 0 {
+							_ = w.Direct.Create(ctx, secret("default", sn, "Opaque", nil, map[string]string{"password": base64.StdEncoding.EncodeToString([]byte("not-this-one"))}))
+						}
+					case s.Tape.Next(4) == 0:
+						if w.Direct.Delete(ctx, &unstructured.Unstructured{Object: runtime.DeepCopyJSON(m)}) == nil {
+							w.S.Probe("composed-connection-secret-lost")
+						}
+					default:
+						u := &unstructured.Unstructured{Object: runtime.DeepCopyJSON(m)}
+						dd := map[string]any{}
+						for kk, v := range d {
+							dd[kk] = v
+						}
+						_ = unstructured.SetNestedMap(u.Object, dd, "data")
+						if w.Direct.Update(ctx, u) == nil {
+							w.S.Probe("composed-connection-secret-rotated")
+						}
+					}
+				}})
+			}
+			if !wl.Pipeline {
+				acts = append(acts, sim.Action{Key: "edit composition", Weight: 2, Run: func() { w.EditComposition(wl, s.Tape) }})
+				if cs := w.ComposedObjects(); len(cs) > 0 {
+					acts = append(acts, sim.Action{Key: "a provider updates the status of a composed resource", Weight: 2, Run: func() {
+						c := cs[s.Tape.Next(len(cs))]
+						u := c.Obj.DeepCopy()
+						_ = unstructured.SetNestedField(u.Object, fmt.Sprintf("p%d", s.Tape.Next(1000)), "status", "phase")
+						_ = w.Direct.Status().Update(context.Background(), u)
+					}})
+				}
 			}
 			// an XR is force-deleted (its claim will create it again under the same name)
 			for _, xr := range w.XRObjects() {
@@ -370,6 +436,14 @@ func (st *state) judgeXRSecretWrite(e *simapi.LogEntry, xrName string) {
 	// what did the composition produce in this reconcile?
 	produced := map[string]string{}
 	found := false
+	if !st.wl.Pipeline {
+		var ok bool
+		if produced, ok = st.ptProduced(e, xrUID); !ok {
+			w.S.Probe("pt-secret-write-not-judged")
+			return
+		}
+		found = true
+	}
 	for _, c := range st.fn.Calls {
 		if c.TaskID == e.TaskID && c.Err == nil && c.Rsp != nil {
 			found = true
@@ -426,7 +500,162 @@ func (st *state) judgeXRSecretWrite(e *simapi.LogEntry, xrName string) {
 			w.S.Violate("C09/foreign-value-published", fmt.Sprintf("XR %s's secret received %s=%q, which the composition did not produce for this XR in this reconcile (produced %v)", xrName, k, after[k], produced))
 		}
 	}
+	if !st.wl.Pipeline && e.After != nil {
+		// ... and everything it produced (and the XRD allows) is in the secret
+		for k, v := range produced {
+			if (len(st.filter) == 0 || allowed[k]) && after[k] != v {
+				w.S.Violate("C09/produced-value-not-published", fmt.Sprintf("XR %s's secret holds %s=%q after a write of a reconcile whose composition produced %q for it (produced %v)", xrName, k, after[k], v, produced))
+			}
+		}
+		w.S.Probe("pt-secret-write-judged")
+	}
 	w.S.Probe("xr-secret-write-judged")
+}
+
+// judgePTComplete: an XR reconcile (Resources mode) that ran to the end
+// without a fault leaves - in the XR's secret as that reconcile itself last
+// saw or wrote it - every allowed key with the value its composition produced;
+// also when it decided that nothing had to be written.
+func (st *state) judgePTComplete(key types.NamespacedName, tk *sim.Task, startSeq int) {
+	w := st.w
+	var xr, sec map[string]any
+	for _, l := range w.Store.Log[startSeq:] {
+		if l.TaskID != tk.ID || l.Injected != "" || l.DryRun || l.Err != nil {
+			continue
+		}
+		if l.Key.Kind == xrworld.XRGVK.Kind && l.Key.Group == xrworld.XRGVK.Group && l.Key.Name == key.Name && l.After != nil {
+			xr = l.After
+		}
+	}
+	if xr == nil || (&unstructured.Unstructured{Object: xr}).GetDeletionTimestamp() != nil {
+		return
+	}
+	ns, _, _ := unstructured.NestedString(xr, "spec", "writeConnectionSecretToRef", "namespace")
+	n, _, _ := unstructured.NestedString(xr, "spec", "writeConnectionSecretToRef", "name")
+	if n == "" {
+		return
+	}
+	seen := false
+	for _, l := range w.Store.Log[startSeq:] {
+		if l.TaskID != tk.ID || l.Injected != "" || l.DryRun || l.Key.Kind != "Secret" || l.Key.Group != "" || l.Key.NS != ns || l.Key.Name != n || l.Verb == "list" {
+			continue
+		}
+		if l.Err != nil && l.After != nil {
+			continue
+		}
+		seen = true
+		sec = l.After
+	}
+	xrUID := (&unstructured.Unstructured{Object: xr}).GetUID()
+	if !seen || sec == nil || controllerUID(sec) != xrUID {
+		return
+	}
+	produced, ok := st.ptProduced(&simapi.LogEntry{Seq: len(w.Store.Log), TaskID: tk.ID}, xrUID)
+	if !ok {
+		return
+	}
+	have := data(sec)
+	for k, v := range produced {
+		allowed := len(st.filter) == 0
+		for _, f := range st.filter {
+			allowed = allowed || f == k
+		}
+		if allowed && have[k] != v {
+			w.S.Violate("C09/produced-value-not-published", fmt.Sprintf("reconcile of XR %s ran to the end; its composition produced %s=%q but the XR's secret as this reconcile left it holds %q (produced %v, secret %v)", key.Name, k, v, have[k], produced, have))
+			return
+		}
+	}
+	w.S.Probe("pt-published-complete-checked")
+}
+
+// ptProduced is the reference model of what a Resources-mode composition
+// produces for the XR, computed from what this reconcile itself read: the
+// composition revision, every composed resource as its apply answered (or as
+// it was read), and the composed resources' own connection secrets. ok=false:
+// the reads do not determine it.
+func (st *state) ptProduced(e *simapi.LogEntry, xrUID types.UID) (map[string]string, bool) {
+	w := st.w
+	var rev map[string]any
+	cds := map[string]map[string]any{}
+	secrets := map[simapi.ObjKey]*simapi.LogEntry{}
+	for _, l := range w.Store.Log {
+		if l.Seq >= e.Seq {
+			break
+		}
+		if l.TaskID != e.TaskID || l.Err != nil && l.After != nil || l.Injected != "" || l.DryRun {
+			continue
+		}
+		switch {
+		case l.Key.Kind == "CompositionRevision" && l.Read && l.After != nil && l.Err == nil:
+			rev = l.After
+		case l.Key.Kind == "CompositionRevision" && l.Read && l.Verb == "list" && l.Err == nil:
+			// Automatic update policy: the highest numbered revision listed
+			best := int64(-1)
+			for _, it := range l.Items {
+				if n, _, _ := unstructured.NestedInt64(it, "spec", "revision"); n > best {
+					best, rev = n, it
+				}
+			}
+		case l.Key.Group == xrworld.ThingGVK.Group && l.After != nil && l.Err == nil && l.Verb != "list":
+			u := &unstructured.Unstructured{Object: l.After}
+			if rn := u.GetAnnotations()["crossplane.io/composition-resource-name"]; rn != "" && controllerUID(l.After) == xrUID {
+				cds[rn] = l.After
+			}
+		case l.Key.Kind == "Secret" && l.Key.Group == "" && l.Read && l.Verb == "get":
+			secrets[l.Key] = l
+		}
+	}
+	if rev == nil {
+		w.S.Probe("pt-secret-write-not-judged/no-revision-read")
+		return nil, false
+	}
+	out := map[string]string{}
+	tmpls, _, _ := unstructured.NestedSlice(rev, "spec", "resources")
+	for _, ti := range tmpls {
+		t, _ := ti.(map[string]any)
+		name, _ := t["name"].(string)
+		cd := cds[name]
+		if cd == nil {
+			w.S.Probe("pt-secret-write-not-judged/composed-resource-not-seen")
+			return nil, false
+		}
+		var sd map[string]string
+		if sn, _, _ := unstructured.NestedString(cd, "spec", "writeConnectionSecretToRef", "name"); sn != "" {
+			sns, _, _ := unstructured.NestedString(cd, "spec", "writeConnectionSecretToRef", "namespace")
+			l := secrets[simapi.ObjKey{Kind: "Secret", NS: sns, Name: sn}]
+			if l == nil || l.Err != nil && l.After != nil {
+				w.S.Probe("pt-secret-write-not-judged/composed-secret-not-read")
+				return nil, false
+			}
+			sd = data(l.After)
+		}
+		cfgs, _, _ := unstructured.NestedSlice(t, "connectionDetails")
+		for _, ci := range cfgs {
+			c, _ := ci.(map[string]any)
+			key, _ := c["name"].(string)
+			switch {
+			case c["value"] != nil:
+				out[key], _ = c["value"].(string)
+			case c["fromConnectionSecretKey"] != nil:
+				from, _ := c["fromConnectionSecretKey"].(string)
+				if key == "" {
+					key = from
+				}
+				if v, ok := sd[from]; ok {
+					out[key] = v
+					w.S.Probe("pt-detail-from-composed-connection-secret")
+				}
+			case c["fromFieldPath"] != nil:
+				path, _ := c["fromFieldPath"].(string)
+				if v, ok, _ := unstructured.NestedString(cd, strings.Split(path, ".")...); ok {
+					out[key] = v
+				} else {
+					w.S.Probe("pt-detail-path-missing")
+				}
+			}
+		}
+	}
+	return out, true
 }
 
 func (st *state) judgeClaimSecretWrite(e *simapi.LogEntry, ck types.NamespacedName) {
